@@ -13,6 +13,7 @@ import (
 
 	"0chain.net/chaincore/block"
 	"0chain.net/chaincore/chain"
+	"0chain.net/chaincore/client"
 	"0chain.net/chaincore/node"
 	"0chain.net/chaincore/round"
 	"0chain.net/core/common"
@@ -29,6 +30,9 @@ import (
 
 var once sync.Once
 
+// GlobalInit sets up the process-wide entity metadata, loggers and root context once.
+func GlobalInit() { globalInit() }
+
 func globalInit() {
 	once.Do(func() {
 		logging.Logger = zap.NewNop()
@@ -42,6 +46,7 @@ func globalInit() {
 		block.SetupBlockSummaryEntity(memorystore.GetStorageProvider())
 		round.SetupEntity(memorystore.GetStorageProvider())
 		round.SetupVRFShareEntity(memorystore.GetStorageProvider())
+		client.SetupEntity(memorystore.GetStorageProvider())
 	})
 }
 
@@ -66,6 +71,7 @@ type Opts struct {
 	Keys []*encryption.BLS0ChainScheme
 	IDs  []string
 	GenesisSeed int64
+	ValidationBatchSize int
 }
 
 // New builds a fresh chain + miner chain. Everything a previous fixture registered globally is replaced.
@@ -120,6 +126,9 @@ func New(o Opts) *Fix {
 	data.GeneratorsPercent = 0.2
 	data.ClientSignatureScheme = encryption.SignatureSchemeBls0chain
 	data.ValidationBatchSize = 2
+	if o.ValidationBatchSize > 0 {
+		data.ValidationBatchSize = o.ValidationBatchSize
+	}
 	c.ChainConfig = chain.NewConfigImpl(data)
 	c.SetMagicBlock(mb)
 	c.SetupStateCache()
